@@ -68,7 +68,7 @@ PROPS.update({
         "rule": FILE_RULE + "; plus block sizes around the clamp {0,1,1023,1024,1025,2048} with entries sized to land the estimate on B-1, B, B+1",
         "trusted": [],
         "assumptions": [],
-        "not_proved": ["C15_cut for whole writer runs (every data block and every index block of level >= 2 is emitted exactly when its estimate reaches B): the estimate is proved exact (C15_size_exact) and its growth per insert bounded (C15_growth); the invariant 'pending blocks stay below B' over Writer::insert's cascade is checked per emitted block of every generated file (predicates Format.size_without_last / block_size_of on the implementation's own blocks) but not yet proved in Coq"],
+        "not_proved": ["the connection between the proved per-block statement (the block writer was below B before its last insert) and the byte-level predicate Format.size_without_last evaluated by the driver on decoded blocks is by execution only"],
     },
     "C18": {
         "prop_file": "props/C18.v",
@@ -76,7 +76,7 @@ PROPS.update({
         "rule": "mostly sorted insert sequences with one defect (duplicate next to its predecessor, adjacent inversion, jump back to the first key, repeated earlier entry, empty key in the middle) or none, under the writer configurations of C01 incl. tiny unclamped blocks and up to 4 index levels; non-trivial = the writer panicked or the file has more blocks than levels + 2",
         "trusted": [],
         "assumptions": [],
-        "not_proved": ["lifting of C18_block_sorted_or_panic to whole writer runs (every block writer inside Writer, data and index, is only ever fed through bw_insert and reset): checked on every emitted block of every generated file, not yet proved in Coq"],
+        "not_proved": ["that the whole writer panics at exactly the first offending insert (rather than merely: panics, or emits only sorted blocks) is proved per block writer (C18_panic_point) and compared with the implementation on every defective sequence (same panic index), but not lifted to the whole writer"],
     },
 })
 
@@ -147,15 +147,15 @@ MANIFEST_TEXT = {
         "technique": "Rocq proof (format lemmas per block and trailer) + independent extracted decoder + 0.4.7 interop matrix by differential execution",
     },
     "C15": {
-        "text": "Proved: the size estimate is the exact uncompressed size of the finished block for every reachable block-writer state (C15_size_exact), one insert grows it by the framed entry plus at most one 8-byte slot (C15_growth), the clamp is max(1024, s) (C15_constants). Every run evaluates the two cut clauses (size without last entry < B; every non-last block of its level >= B) on every emitted data block and index block of level >= 2 of every generated file, and compares emitted bytes with the model.",
+        "text": "Proved for the whole writer model over any sink and any insert sequence (C15_cut, C15_reached, C15_overshoot, by an invariant over Writer::insert's cascade and into_inner's flush): every emitted data block and index block of level >= 2 was below B before its last insert, every such block emitted while inserting has reached B, none exceeds B by more than one framed entry plus 8 bytes; the size estimate is the exact finished size (C15_size_exact); the clamp is max(1024, s) (C15_constants). Every run evaluates the two cut clauses (size without last entry < B; every non-last block of its level >= B) on every emitted data block and index block of level >= 2 of every generated file, and compares emitted bytes with the model.",
         "design_ref": "DESIGN.md §5 C15",
-        "note": "Partial proof (cascade invariant validated, not proved). Trusted: kernel; transcription validated by correspondence; extraction, driver, harness. Axioms: none.",
+        "note": "Proof complete for the writer model; tie to writer.rs by byte-exact correspondence. Trusted: kernel; transcription validated by correspondence; extraction, driver, harness. Axioms: none.",
         "technique": "Rocq proof (size exactness, growth bound) + per-block cut predicates evaluated on implementation output + byte-exact model comparison",
     },
     "C18": {
-        "text": "Proved for every insert sequence: a block writer either panics or holds exactly the inserted entries with strictly ascending keys (C18_block_sorted_or_panic), panicking exactly at the first key not above the last key (C18_panic_point); decoded finished blocks are sorted (C18_finished_block_sorted). Every run: mostly-sorted sequences with planted defects through implementation and model (same panic index or byte-identical file) and sortedness of every emitted block.",
+        "text": "Proved for the whole writer model over any sink and every insert sequence (C18_writer_blocks_legal, C18_sorted_or_panic, C18_legal_block_is_sorted): a run that neither panics nor fails emits only blocks — data and index alike — that parse and decode to strictly ascending keys; per block writer, the panic happens exactly at the first key not above the last key (C18_panic_point, C18_block_sorted_or_panic). Every run: mostly-sorted sequences with planted defects through implementation and model (same panic index or byte-identical file) and sortedness of every emitted block.",
         "design_ref": "DESIGN.md §5 C18",
-        "note": "Partial proof (lifting to all block writers inside Writer validated, not proved). Trusted: kernel; transcription validated by correspondence; extraction, driver, harness. Axioms: none.",
+        "note": "Proof complete for the writer model (sorted-or-panic); tie to writer.rs by byte-exact correspondence. Trusted: kernel; transcription validated by correspondence; extraction, driver, harness. Axioms: none.",
         "technique": "Rocq proof (invariant by induction over inserts, dichotomy) + model/implementation differential execution on defective insert sequences",
     },
     "C13": {
